@@ -20,6 +20,15 @@ MAX_BUCKETS = 4  # distinct failure labels enumerated per shard before giving up
 
 
 CLEAR_EVERY = int(os.environ.get("VERIF_CLEAR_EVERY", "250"))
+MAX_MAPS = int(os.environ.get("VERIF_MAX_MAPS", "20000"))
+
+
+def _n_maps():
+    try:
+        with open("/proc/self/maps") as f:
+            return sum(1 for _ in f)
+    except OSError:
+        return 0
 
 
 def _structure_labels(case):
@@ -119,9 +128,10 @@ def run_shard(args):
                 case = jsonable(case)
                 fails = sub.run(case)
                 state["evals"] += 1
-                if state["evals"] % CLEAR_EVERY == 0:
-                    # bound the memory of long shards: compiled executables accumulate per shape (several GB per worker in the
-                    # thorough tier); the on-disk XLA cache makes the recompilation cheap
+                if state["evals"] % CLEAR_EVERY == 0 or (state["evals"] % 10 == 0 and _n_maps() > MAX_MAPS):
+                    # bound the footprint of long shards: compiled executables accumulate per shape - several GB per worker and,
+                    # first of all, tens of thousands of memory mappings (the kernel's vm.max_map_count of 65530 is hit well before
+                    # RAM runs out and shows up as "LLVM ... Cannot allocate memory").  The on-disk XLA cache keeps recompilation cheap.
                     import gc
 
                     import jax
